@@ -187,6 +187,79 @@ pub fn gen(_ctx: &mut Ctx) {
     println!("end Servlin.Gen");
 }
 
+const MORE_KINDS: &[ErrorKind] = &[
+    ErrorKind::NotFound, ErrorKind::PermissionDenied, ErrorKind::ConnectionRefused, ErrorKind::ConnectionReset, ErrorKind::ConnectionAborted,
+    ErrorKind::NotConnected, ErrorKind::AddrInUse, ErrorKind::AddrNotAvailable, ErrorKind::BrokenPipe, ErrorKind::AlreadyExists,
+    ErrorKind::WouldBlock, ErrorKind::InvalidInput, ErrorKind::InvalidData, ErrorKind::TimedOut, ErrorKind::WriteZero,
+    ErrorKind::Interrupted, ErrorKind::Unsupported, ErrorKind::UnexpectedEof, ErrorKind::OutOfMemory, ErrorKind::Other,
+];
+
+/// c20x: the other error values that become responses.
+/// `io:<Kind>:<payload hex>`      `Response::from(std::io::Error::new(kind, payload))`
+/// `pend:<what>`                  the library's own "cannot read pending body" error (a fault of the server program), as a response
+/// `err:<ctor>:<resp>:<msg hex>`  `log_response(Err(e))` for an `Error` built by <ctor> (server | io | string | client | new), with an
+///                                explicit response <resp> (- | <code> (no body) | t<code> (text body "shown")) and message
+pub fn case_x(ctx: &mut Ctx, spec: &str) {
+    let sp = spec.to_string();
+    let obs = crate::guard(move || {
+        let p: Vec<&str> = sp.split(':').collect();
+        let text = |h: &str| String::from_utf8(unhex(h)).unwrap();
+        match p[0] {
+            "io" => {
+                let kind = *MORE_KINDS.iter().find(|k| kind_name(**k) == p[1]).expect("kind");
+                show_response(&Response::from(std::io::Error::new(kind, text(p[2]))))
+            }
+            "pend" => {
+                let body = if p[1] == "known" { servlin::RequestBody::PendingKnown(70_000) } else { servlin::RequestBody::PendingUnknown };
+                let e = match p[2] {
+                    "reader" => body.reader().err(),
+                    "vec" => Vec::<u8>::try_from(body).err(),
+                    _ => String::try_from(body).err(),
+                };
+                show_response(&Response::from(e.expect("pending body must not be readable")))
+            }
+            _ => {
+                // (the events go to a logger of our own so that the stdout default is not started)
+                let (tx, rx) = std::sync::mpsc::sync_channel::<servlin::log::internal::LogEvent>(16);
+                let g = servlin::log::set_global_logger(tx);
+                let msg = text(p[3]);
+                let mk = || match p[2] {
+                    "-" => None,
+                    r if r.starts_with('t') => Some(Response::text(r[1..].parse().unwrap(), "shown")),
+                    r => Some(Response::new(r.parse().unwrap())),
+                };
+                let resp = mk();
+                let mut e = match p[1] {
+                    "server" => servlin::Error::server_error(msg),
+                    "io" => servlin::Error::from(std::io::Error::new(ErrorKind::PermissionDenied, msg)),
+                    "string" => servlin::Error::from(msg),
+                    "client" => servlin::Error::client_error(mk().unwrap_or_else(|| Response::new(400))).with_msg(msg),
+                    _ => servlin::Error::new().with_msg(msg),
+                };
+                if let (Some(r), true) = (resp, p[1] != "client") { e = e.with_response(r); }
+                let out = servlin::log::log_response(Err(e));
+                drop(g);
+                drop(rx);
+                match out { Ok(r) => show_response(&r), Err(_) => "logger-stopped".to_string() }
+            }
+        }
+    });
+    ctx.emit("c20x", &[spec], &obs);
+}
+
+pub fn run_c20x(ctx: &mut Ctx) {
+    let msgs = ["ZQ error opening /var/lib/app/secrets/db.key: Permission denied (os error 13)", "ZQ", "ZQ\r\nset-cookie: a=b"];
+    for k in MORE_KINDS {
+        for m in msgs { case_x(ctx, &format!("io:{}:{}", kind_name(*k), hex(m.as_bytes()))); }
+    }
+    for a in ["known", "unknown"] { for b in ["reader", "vec", "string"] { case_x(ctx, &format!("pend:{a}:{b}")); } }
+    for ctor in ["server", "io", "string", "client", "new"] {
+        for resp in ["-", "500", "501", "503", "400", "404", "t500", "t400", "200"] {
+            for m in msgs { case_x(ctx, &format!("err:{ctor}:{resp}:{}", hex(m.as_bytes()))); }
+        }
+    }
+}
+
 pub fn run(ctx: &mut Ctx) {
     if ctx.tier == "gen" {
         return gen(ctx);
